@@ -57,8 +57,9 @@ CHECKS = {
              "a virtual time, after natural end) under several seeded "
              "schedules each; quick tier samples positions. Oracle: observers "
              "saw exactly split(prefix actually read), saved wav == prefix, "
-             "all threads end within a bounded number of fair steps, the "
-             "request takes effect within 3 further reads. One run in five "
+             "all threads end within a bounded number of fair steps, a "
+             "request that has no effect at all (rest of a long stream still "
+             "read) is reported. One run in five "
              "is a whole cmdline.main run with a KeyboardInterrupt injected "
              "while main sleeps (the Ctrl-C path).",
         note="Stop positions are enumerated per scenario, schedules are "
